@@ -4,15 +4,18 @@
      lb{cw}        driver: a balancer was built over hosts with CONFIGURED weights cw (reset)
      add{h,w}      hook edf.add: host h entered the scheduler with effective weight w
      pick{h,w}     hook edf.pick: the scheduler served h (includes the unobservable warm-up picks)
-     choose{h}     driver: ChooseHost returned h (all hosts healthy) *)
+     choose{h}     driver: ChooseHost returned h (all hosts healthy)
+     sick{hs}      driver: hosts hs are unhealthy from now on (before the balancer is built, or later)
+     epoch{}       driver: every host is healthy again from now on; the windows of the lag bound start afresh here
+                   (the bound is stated for picks over an all-healthy host set) *)
 EXTENDS Integers, Sequences, FiniteSets, TLC, VTrace
 
 MinW == 1
 MaxW == 128
 Clamp(x) == IF x <= MinW THEN MinW ELSE IF x >= MaxW THEN MaxW ELSE x
 
-VARIABLES W, k, added, last, c, pastC
-vars == <<W, k, added, last, c, pastC>>
+VARIABLES W, k, added, last, c, pastC, sick
+vars == <<W, k, added, last, c, pastC, sick>>
 tvars == <<vars, l>>
 
 HostsT == DOMAIN W
@@ -22,19 +25,21 @@ Abs(x) == IF x < 0 THEN -x ELSE x
 LagOK(from, to, i, j) == Abs((to[i] - from[i]) * W[j] - (to[j] - from[j]) * W[i]) <= W[i] + W[j]
 
 Empty == [x \in {} |-> 0]
-TraceInit == l = 1 /\ W = Empty /\ k = Empty /\ added = {} /\ last = "none" /\ c = Empty /\ pastC = {}
+TraceInit == l = 1 /\ W = Empty /\ k = Empty /\ added = {} /\ last = "none" /\ c = Empty /\ pastC = {} /\ sick = {}
+S(seq) == { seq[i] : i \in DOMAIN seq }
 
 TLb == /\ IsEvent("lb")
        /\ W' = [h \in DOMAIN Ev.cw |-> Clamp(Ev.cw[h])]
        /\ k' = [h \in DOMAIN Ev.cw |-> 0]
        /\ c' = [h \in DOMAIN Ev.cw |-> 0]
        /\ added' = {} /\ last' = "none" /\ pastC' = {}
+       /\ UNCHANGED sick
 
 TAdd == /\ IsEvent("add")
         /\ Ev.h \in HostsT
         /\ Expect(Ev.w = W[Ev.h], "effective-weight")
         /\ added' = added \cup {Ev.h}
-        /\ UNCHANGED <<W, k, last, c, pastC>>
+        /\ UNCHANGED <<W, k, last, c, pastC, sick>>
 
 TPick == /\ IsEvent("pick")
          /\ Ev.h \in added
@@ -42,18 +47,26 @@ TPick == /\ IsEvent("pick")
          /\ Expect(Ev.w = W[Ev.h], "effective-weight")
          /\ k' = [k EXCEPT ![Ev.h] = @ + 1]
          /\ last' = Ev.h
-         /\ UNCHANGED <<W, added, c, pastC>>
+         /\ UNCHANGED <<W, added, c, pastC, sick>>
 
 TChoose == /\ IsEvent("choose")
            /\ Ev.h \in HostsT
-           /\ Expect(added = {} \/ Ev.h = last, "choose-is-not-scheduler-pick")
-           /\ LET c2 == [c EXCEPT ![Ev.h] = @ + 1] IN
-                /\ c' = c2
-                /\ pastC' = pastC \cup {c}
-                /\ Expect(\A p \in pastC \cup {c} : \A i, j \in HostsT : LagOK(p, c2, i, j), "lag-bound")
+           /\ Expect(Ev.h \notin sick, "unhealthy-host-chosen")
+           /\ IF sick = {}
+              THEN /\ Expect(added = {} \/ Ev.h = last, "choose-is-not-scheduler-pick")
+                   /\ LET c2 == [c EXCEPT ![Ev.h] = @ + 1] IN
+                        /\ c' = c2
+                        /\ pastC' = pastC \cup {c}
+                        /\ Expect(\A p \in pastC \cup {c} : \A i, j \in HostsT : LagOK(p, c2, i, j), "lag-bound")
+              ELSE UNCHANGED <<c, pastC>>          \* while a member is unhealthy only C05's contract applies
            /\ last' = "none"
-           /\ UNCHANGED <<W, k, added>>
+           /\ UNCHANGED <<W, k, added, sick>>
 
-TraceNext == TLb \/ TAdd \/ TPick \/ TChoose
+TSick == IsEvent("sick") /\ sick' = S(Ev.hs) /\ UNCHANGED <<W, k, added, last, c, pastC>>
+TEpoch == /\ IsEvent("epoch") /\ sick' = {}
+          /\ c' = [h \in HostsT |-> 0] /\ pastC' = {}
+          /\ UNCHANGED <<W, k, added, last>>
+
+TraceNext == TLb \/ TAdd \/ TPick \/ TChoose \/ TSick \/ TEpoch
 TraceSpec == TraceInit /\ [][TraceNext]_tvars
 ====
